@@ -712,12 +712,16 @@ def run_history(case, ctx):
             ctx.label("bad_" + kind)
             row = jsonify_md(model, model.concrete(op[3], n + 1))
             good = model.arrays([row])
+            # out of range by one, or by a multiple of 2^32 / 2^64 (aliases of valid rows in narrower integers)
+            far = [n, -n - 1, 2**32 + (op[2] % max(1, n)), -(2**32) - 1, 2**31 + n, 2**64 + (op[2] % max(1, n)),
+                   -(2**63) - 1, 2**32 - 1 - (op[2] % max(1, n))]
             if kind == "getitem":
-                j = n if op[2] % 2 else -n - 1
-                must_raise(ctx, model, t, lambda: t[j], (IndexError,), what)
+                j = far[op[2] % len(far)]
+                must_raise(ctx, model, t, lambda: t[j], (IndexError, OverflowError), what)
             elif kind == "setitem":
-                j = n if op[2] % 2 else -n - 1
-                must_raise(ctx, model, t, lambda: t.__setitem__(j, row_like(model, row, md_json())), (IndexError,), what)
+                j = far[op[2] % len(far)]
+                must_raise(ctx, model, t, lambda: t.__setitem__(j, row_like(model, row, md_json())),
+                           (IndexError, OverflowError), what)
             elif kind == "truncate":
                 j = n + 1 + op[2] % 3 if op[2] % 2 else -1 - op[2] % 3
                 must_raise(ctx, model, t, lambda: t.truncate(j), (ValueError,), what)
